@@ -4,10 +4,11 @@
  2. the change applied to /repo (git apply), ./check <ID> quick run, then undone (git checkout -- .)
  results are stored in /verif/seeded/<ID>/ (patch.diff, demo files, meta.json with what was run)."""
 import json, os, shutil, subprocess, sys, time
-pid = sys.argv[1].lower(); PID = pid.upper()
+pid = sys.argv[1].lower(); PID = pid[:3].upper()      # c05b = second seed for C05
+DIR = PID + pid[3:]
 others = [x.upper() for x in sys.argv[2:]]
 src = '/tmp/seed-%s' % pid
-dst = '/verif/seeded/%s' % PID
+dst = '/verif/seeded/%s' % DIR
 def sh(cmd, cwd=None, timeout=1800):
     p = subprocess.run(cmd, shell=True, cwd=cwd, stdout=subprocess.PIPE, stderr=subprocess.STDOUT, timeout=timeout)
     return p.returncode, p.stdout.decode('latin-1')
@@ -17,7 +18,7 @@ for f in os.listdir(src + '/SEED'):
     if os.path.isfile(os.path.join(src, 'SEED', f)) and os.path.getsize(os.path.join(src, 'SEED', f)) < 300000 and not os.access(os.path.join(src, 'SEED', f), os.X_OK) or f.endswith('.sh') or f.endswith('.py'):
         shutil.copy(os.path.join(src, 'SEED', f), dst)
 ran = []
-demo = meta.get('demo_cmd', '')
+demo = __import__('re').split(r'\s{2,}\(', meta.get('demo_cmd', ''))[0]      # agents sometimes append an explanation in parentheses
 rc1, o1 = sh(demo, cwd=src + '/SEED')
 ran.append('demo with change: exit %d' % rc1)
 sh('git stash -q', cwd=src)
@@ -53,4 +54,4 @@ meta['check_verdicts'] = verdicts
 meta['ran_by_verif'] = ran
 meta['caught'] = any(v['exit'] == 1 and v['violation_line'] for v in verdicts.values())
 json.dump(meta, open(dst + '/meta.json', 'w'), indent=1)
-print(PID, 'demo confirmed' if confirmed else 'DEMO NOT CONFIRMED (%d/%d)' % (rc1, rc2), '| caught' if meta['caught'] else '| MISSED', {k: (v['exit'], (v['violation_line'] or '')[-40:]) for k, v in verdicts.items()})
+print(DIR, 'demo confirmed' if confirmed else 'DEMO NOT CONFIRMED (%d/%d)' % (rc1, rc2), '| caught' if meta['caught'] else '| MISSED', {k: (v['exit'], (v['violation_line'] or '')[-40:]) for k, v in verdicts.items()})
